@@ -145,6 +145,19 @@ def bicgstab(A, b, x0=None, tol=1e-5, criteria='rr',
 
         # s_j = r_j - alpha*A*M*p_j
         s = r - alpha * AMp
+
+        # the half step may already meet the criterion (in particular s = 0,
+        # which would make omega = 0/0): accept x_j + alpha*M*p_j
+        norms = norm(s)
+        if norms < rtol:
+            x = x + alpha * Mp
+            it += 1
+            if residuals is not None:
+                residuals.append(norms)
+            if callback is not None:
+                callback(x)
+            return (postprocess(x), 0)
+
         Ms = M @ s
         AMs = A @ Ms
 
